@@ -30,9 +30,22 @@ impl EventLog {
         let mut writer = self.writer.lock().expect("event log mutex");
         let line = serde_json::to_string(event)
             .map_err(|err| io::Error::new(io::ErrorKind::InvalidData, err))?;
+        #[cfg(rip_verif)]
+        let verif_ctx = format!(
+            "{}:{}:{}",
+            verif_stream_kind(event),
+            event.stream_id(),
+            event.seq
+        );
+        #[cfg(rip_verif)]
+        rip_kernel::verif::point("log.before_write", &verif_ctx);
         writer.write_all(line.as_bytes())?;
+        #[cfg(rip_verif)]
+        rip_kernel::verif::point("log.after_body", &verif_ctx);
         writer.write_all(b"\n")?;
         writer.flush()?;
+        #[cfg(rip_verif)]
+        rip_kernel::verif::point("log.after_flush", &verif_ctx);
         Ok(())
     }
 
@@ -72,6 +85,16 @@ impl EventLog {
     }
 }
 
+#[cfg(rip_verif)]
+fn verif_stream_kind(event: &Event) -> &'static str {
+    match event.stream_kind() {
+        StreamKind::Session => "session",
+        StreamKind::Task => "task",
+        StreamKind::Continuity => "continuity",
+        StreamKind::Artifact => "artifact",
+    }
+}
+
 pub fn write_snapshot(
     dir: impl AsRef<Path>,
     session_id: &str,
@@ -81,11 +104,15 @@ pub fn write_snapshot(
     fs::create_dir_all(dir)?;
     let path = dir.join(format!("{session_id}.json"));
     let file = File::create(&path)?;
+    #[cfg(rip_verif)]
+    rip_kernel::verif::point("snapshot.after_create", session_id);
     let mut writer = BufWriter::new(file);
     let payload = serde_json::to_string_pretty(events)
         .map_err(|err| io::Error::new(io::ErrorKind::InvalidData, err))?;
     writer.write_all(payload.as_bytes())?;
     writer.flush()?;
+    #[cfg(rip_verif)]
+    rip_kernel::verif::point("snapshot.after_write", session_id);
     Ok(path)
 }
 
